@@ -137,11 +137,39 @@ def directed_bases():
         "do top r0.new n0 tcp", "do top r0.resolve a.com 80 h7",
         "do top r1.new n0 tcp", "do top r1.resolve b.com 80 h8",
         "do top run", "end"]) + "\n")
+    # a wait that was cancelled and started again without re-arming (the expiry is still ahead): the
+    # second wait is a full operation - cancel / destroy / re-arm must abort it, exactly once
+    out.append("\n".join(["== bd_rewait"] + hdr + [
+        "do top t0.expires_after 10000000", "do top t0.wait h0",
+        "do top t1.expires_after 1000000", "do top t1.wait h1",
+        "do h1 t0.cancel", "do h1 t0.wait h2",
+        "do top t2.expires_after 3000000", "do top t2.wait h3",
+        "do top t3.expires_after 5000000", "do top t3.wait h4",
+        "do h4 t0.cancel", "do h4 t0.wait h5",
+        "do top t4.expires_after 7000000", "do top t4.wait h6",
+        "do top run", "end"]) + "\n")
+    # a write small enough to be accepted at once leaves its socket idle with two segments in
+    # flight; the second hop drops one of them after the intervention: the drop notification and the
+    # retransmission must find the socket the connection lives in NOW (move-then-destroy-source)
+    out.append("\n".join(["== bd_mvdrop", "node n0 10.0.0.1", "node n1 10.0.0.2",
+        "hop q0 queue bw=1000000 lat=5000000 cap=0", "hop q1 queue bw=1000000 lat=5000000 cap=0",
+        "hop d0 dropper drop=1,3",
+        "route out 10.0.0.1 q0 d0", "route out 10.0.0.2 q1", "route in * q1",
+        "do top a0.new n1", "do top a0.open v4", "do top a0.bind 0.0.0.0:7000", "do top a0.listen",
+        "do top s0.new n1", "do top a0.accept s0 h0",
+        "do top s1.new n0", "do top s1.connect 10.0.0.2:7000 h1",
+        "do h1 s1.write h3 stream=1 len=2950",
+        "do h0 s0.read h4 cap=20000", "do h4 s0.read h5 cap=20000", "do h5 s0.read h6 cap=20000",
+        "do top u0.new n0", "do top u0.open v4", "do top u0.bind 10.0.0.1:6000",
+        "do top u1.new n1", "do top u1.open v4", "do top u1.bind 10.0.0.2:6001",
+        "do top u0.send_to 10.0.0.2:6001 len=100 id=1", "do top u1.send_to 10.0.0.1:6000 len=100 id=2",
+        "do top run", "end"]) + "\n")
     return out
 
 # directed base -> (objects whose every intervention is run, boundaries 1..K)
 DIRECTED = {"bd_udpw": (["u0"], 3), "bd_accnew": (["a0"], 5), "bd_res": (["r0"], 7), "bd_conn": (["s1", "s2", "a0"], 8),
-            "bd_drop": (["s1"], 30), "bd_hsops": (["s1", "s2", "s3"], 6), "bd_eqt": (["t0", "t1", "t2", "s1", "s2", "r0", "r1"], 4)}
+            "bd_drop": (["s1"], 30), "bd_hsops": (["s1", "s2", "s3"], 6), "bd_eqt": (["t0", "t1", "t2", "s1", "s2", "r0", "r1"], 4),
+            "bd_mvdrop": (["s1"], 20), "bd_rewait": (["t0"], 10)}
 
 
 def objects_of(scn):
@@ -181,6 +209,14 @@ def interventions(obj, uid, keep_alive=False):
     return []
 
 
+def move_interventions(obj, uid, busy):
+    """move-then-destroy-source and plain move of a socket that has no operation outstanding at this
+    boundary (a precondition of moving; decided from the model's prediction of the base scenario)"""
+    if obj[0] not in "su" or busy is None or obj in busy: return []
+    n = "%s%d" % (obj[0], 8800 + uid % 1000)
+    return ["%s.move %s ; %s.destroy" % (obj, n, obj), "%s.move %s" % (obj, n)]
+
+
 def with_intervention(base, k, ops, tag, kind="s"):
     lines = base.rstrip("\n").split("\n")
     assert lines[-1] == "end"
@@ -191,12 +227,12 @@ def with_intervention(base, k, ops, tag, kind="s"):
     return "\n".join(lines[:-1] + add + ["end"]) + "\n"
 
 
-def matrix(bases, counts, seed, tier, advs=None):
+def matrix(bases, counts, seed, tier, advs=None, idle=None):
     """bases: list of scenario texts; counts: id -> number of event boundaries after a handler
     (contexts `s<k>`); advs: id -> number of clock steps (contexts `a<k>`: the expired timers'
     completions are posted and none has run - the boundary a handler of an equal-expiry timer
     armed earlier would occupy)."""
-    advs = advs or {}
+    advs = advs or {}; idle = idle or {}
     rng = random.Random(seed * 92821 + 1)
     out = []
     uid = 0
@@ -215,8 +251,9 @@ def matrix(bases, counts, seed, tier, advs=None):
         if sid in DIRECTED:
             dobjs, dk = DIRECTED[sid]
             for kind, k in [("s", k) for k in range(1, min(n, dk) + 1)] + [("a", k) for k in range(1, min(na, dk) + 1)]:
+                busy = idle.get(sid, {}).get((kind, k), (None, None))[1]
                 for o in dobjs:
-                    for iv in interventions(o, uid, o in peers):
+                    for iv in interventions(o, uid, o in peers) + move_interventions(o, uid, busy):
                         uid += 1
                         iv = re.sub(r"h5\d{4}", "h%d" % (50000 + uid), iv)
                         if node: iv = iv.replace(" n0 ;", " %s ;" % node)
@@ -229,8 +266,9 @@ def matrix(bases, counts, seed, tier, advs=None):
             rng.shuffle(ks); ks = sorted(ks[:40])
         for kind, k in ks:
             cands = []
+            busy = idle.get(sid, {}).get((kind, k), (None, None))[1]
             for o in objs:
-                for iv in interventions(o, uid, o in peers):
+                for iv in interventions(o, uid, o in peers) + move_interventions(o, uid, busy):
                     cands.append(iv)
             if tier == "quick":
                 rng.shuffle(cands); cands = cands[:4]
